@@ -909,6 +909,31 @@ def gen_oracle_case(rng, seed):
     return case
 
 
+def range_family():
+    """a small deterministic family of range histories that every run checks first: set / read / remove / read and
+    set / read / set another / read / remove / read, for the mean-and-std and the mode strategy, offsets from the real
+    generator (seeded) and scripted ones: after each step value / error must be the statistics of the retrievable samples
+    restricted to the range in force (all of them once the range is removed)"""
+    src = lambda v, e: {"kind": "single", "value": fx(v), "error": fx(e)}
+    rng_ = lambda a, b: ["set_range", [["float", fx(a)], ["float", fx(b)]]]
+    rd = [["read_value"], ["read_error"]]
+    out = []
+    for okind in ("real", "uniform"):
+        for strat in ("mean", "mode"):
+            head = [["use_mode", ["float", fx(0.5)]]] if strat == "mode" else []
+            for name, body in (
+                    ("set-read-remove-read", [rng_(6.5, 7.5)] + rd + [["set_range", []]] + rd),
+                    ("read-set-read-remove-read", rd + [rng_(6.75, 8.0)] + rd + [["set_range", []]] + rd),
+                    ("set-read-set-another-read-remove-read", [rng_(6.0, 7.0)] + rd + [rng_(7.0, 8.5)] + rd + [["set_range", []]] + rd),
+                    ("set-read-switch-strategy-remove-read",
+                     [rng_(6.5, 7.5)] + rd + [["use_mode", ["noarg"]] if strat == "mean" else ["use_mean_std"]] + rd +
+                     [["set_range", []]] + rd + [["use_mean_std"] if strat == "mean" else ["use_mode", ["noarg"]]] + rd)):
+                out.append({"seed": "range-family-{}-{}-{}".format(okind, strat, name), "okind": okind, "g": 200 if okind == "real" else 48,
+                            "sources": [src(5.0, 0.5), src(2.0, 0.25)], "corr": [], "defs": [["add", ["var", 0], ["var", 1]]],
+                            "method": "global", "ops": head + body})
+    return out
+
+
 def search(ctx, suspects, budget):
     t0 = time.time()
     rng = ctx.rng
@@ -917,6 +942,7 @@ def search(ctx, suspects, budget):
     todo_hist = [s["case"] for s in suspects if s.get("kind") == "history" and s.get("case")]
     for c in load_corpus():
         (todo_mode if c.get("kind") == "mode" else todo_hist).append(c["case"])
+    todo_hist += range_family()      # suspects first, then the corpus, then the deterministic range histories
     n_mode = n_hist = 0
     seen = set()
     TIMEOUTS[0] = 0
